@@ -96,6 +96,34 @@ def run(opts):
                     tail = [b for b in other[:3]]
                     alts.append({"k": k, "blocks": [schedgen.block_text(b) for b in tail]})
             scripts.append({"head": schedgen.HEAD, "blocks": blocks, "alts": alts, "src": "tlc"})
+        # multi-segment wells are rare in the simulated behaviours (their prerequisites are narrow): histories in which a well
+        # becomes multi-segment and its segment keywords are entered again at later report steps, with other keywords around
+        def kw(kwname, **f):
+            return dict(kw=kwname, **f)
+        msw_hist = 0
+        for _ in range(chk.pick(40, 400)):
+            w, i = rng.choice(["W1", "W2"]), rng.choice([1, 3])
+            blocks = [[kw("WELSPECS", well=w, group="G1", i=i, j=i), kw("COMPDAT", well=w, i=i, j=i, k1=1, k2=2, state="OPEN"),
+                       kw("WCONPROD", well=w, status="OPEN", cmode="ORAT", orat=100, bhp=50)]]
+            have = False
+            for _b in range(rng.randint(3, 5)):
+                b = []
+                for _k in range(rng.randint(0, 2)):
+                    r = rng.random()
+                    if r < 0.5:
+                        b.append(kw("MSW", well=w, i=i, v=rng.choice([1, 2])))
+                        have = True
+                    elif r < 0.7:
+                        b.append(kw("WELTARG", well=w, which="ORAT", v=rng.choice([60, 150])))
+                    elif r < 0.85:
+                        b.append(kw("WEFAC", well=w, f=rng.choice([1, 2, 4])))
+                    else:
+                        b.append(kw("MISC", name=rng.choice(["WVFPDP", "WDFAC", "COMPORD"]), well=w, v=rng.choice([1, 2])))
+                blocks.append(b)
+            if have:
+                scripts.append({"head": schedgen.HEAD, "blocks": [schedgen.block_text(b) for b in blocks], "alts": [], "src": "msw"})
+                msw_hist += 1
+        chk.notes["msw_histories"] = msw_hist
         # shipped decks
         shipped = 0
         for path in sorted(glob.glob(os.path.join(vf.REPO, "tests", "*.DATA")) + glob.glob(os.path.join(vf.REPO, "tests", "parser", "data", "integration_tests", "SCHEDULE", "*"))):
